@@ -18,6 +18,9 @@
 (*   store-twice      no slot is written twice                       (C04) *)
 (*   redefinition     no name is bound twice and no formal or template     *)
 (*                    local is rebound by a model name          (C19, C02) *)
+(*   scheme-choice    a Rush-Larsen scheme uses the exponential update for  *)
+(*                    exactly the requested stiff states whose rate depends *)
+(*                    on themselves                                  (C07) *)
 (*   lengths          at return the written slots are exactly 0..n-1 and   *)
 (*                    the declared number of returned entries is n   (C03) *)
 (* A failing rule does not stop the trace: it is recorded and the rest of  *)
@@ -64,12 +67,25 @@ StoreOk(ev) ==
          \E n \in ToSet(ev.uses) : Has(T.requested, n) /\ T.requested[n] = ev.slot
     [] OTHER -> TRUE
 
+\* C07: in a Rush-Larsen scheme the store of state X reads the linearisation d<X>_dt_linearized exactly when
+\* the scheme decided to use the exponential update for X; T.stiff is the set of states the caller asked for
+\* (generalized: every state), T.zero_slope the states whose rate does not depend on themselves
+SchemeChoiceOk(ev) ==
+  IF T.kind # "scheme" \/ ~T.check_choice THEN TRUE ELSE
+  \A d \in ToSet(ev.uses) :
+     (Has(T.derivs, d) /\ Has(T.state_index, T.derivs[d]) /\ T.state_index[T.derivs[d]] = ev.slot) =>
+        LET x == T.derivs[d]
+            wantRL == (T.all_stiff \/ x \in ToSet(T.stiff)) /\ x \notin ToSet(T.zero_slope)
+            usesLin == \E u \in ToSet(ev.uses) : u = T.lin[d]
+        IN wantRL = usesLin
+
 RuleFails(ev) ==
      (IF ~(Reads(ev) \subseteq defined) THEN {"use-before-def"} ELSE {})
   \cup (IF ~UnpackOk(ev) THEN {"unpack-slot"} ELSE {})
   \cup (IF Binds(ev) \cap defined # {} THEN {"redefinition"} ELSE {})
   \cup (IF ev.k = "store" /\ ~StoreOk(ev) THEN {"store-slot"} ELSE {})
   \cup (IF ev.k = "store" /\ ev.slot \in ToSet(stored) THEN {"store-twice"} ELSE {})
+  \cup (IF ev.k = "store" /\ ~SchemeChoiceOk(ev) THEN {"scheme-choice"} ELSE {})
   \cup (IF ev.k = "store" /\ T.needs_alloc /\ "values" \notin defined THEN {"store-before-alloc"} ELSE {})
   \cup (IF ev.k = "return" /\ T.expect_n >= 0 /\ ~(ToSet(stored) = 0..(T.expect_n - 1) /\ Len(stored) = T.expect_n) THEN {"lengths-stored"} ELSE {})
   \cup (IF ev.k = "return" /\ T.expect_n >= 0 /\ ev.nret >= 0 /\ ev.nret # T.expect_n THEN {"lengths-returned"} ELSE {})
